@@ -9,9 +9,9 @@
    Preconditions of the C++ API are hypotheses: insert only what is not contained, remove only contained nodes
    ([ids_fresh]); lower <= upper for inserted intervals is ASSERTED by the code ([irun] = None models the stop);
    queries with lb <= ub (for lb > ub the test in the source is a different predicate: C07_inverted_query_differs). *)
-From Coq Require Import NArith List Bool Sorted Lia Permutation PeanoNat.
+From Coq Require Import NArith ZArith List Bool Sorted Lia Permutation PeanoNat.
 From FV Require Import Rb.RbModel Rb.RbInorder Rb.RbInvariant Rb.RbLayout Rb.RbHistory Rb.RbAnnot.
-From FV Require Import Interval.IntervalModel Interval.IntervalProofs Interval.IntervalPath.
+From FV Require Import Interval.IntervalModel Interval.IntervalProofs Interval.IntervalPath Interval.IntervalOrder.
 Import ListNotations.
 Local Open Scope N_scope.
 
@@ -115,6 +115,47 @@ Proof. exact history_interval. Qed.
 Theorem C07_assert_exact : forall ops : list (op ielt), irun ops = None <-> ~ Forall op_wf ops.
 Proof. exact irun_assert. Qed.
 
+(* ---- the endpoint type.  interval_tree<T, P, ...> is a template in P and only compares endpoints.  The theorems above are
+   stated for the extracted model (P = N); the SAME model text over an arbitrary endpoint type P, assuming only that
+   [leb] is a total preorder and [ltb a b = negb (leb b a)] (no arithmetic, no least element: the maximum of an absent
+   subtree is absent, never a sentinel value), satisfies the same statement -- so signed integers with negative bounds and
+   floating-point bounds (NaN excluded: not ordered) are inside the quantifier of C07 *)
+Theorem C07_any_ordered_endpoint_type :
+  forall (P : Type) (leb ltb : P -> P -> bool),
+    (forall a b, leb a b = true \/ leb b a = true) ->
+    (forall a b c, leb a b = true -> leb b c = true -> leb a c = true) ->
+    (forall a b, ltb a b = negb (leb b a)) ->
+    forall (ops : list (op (gelt P))) (t : gtree P),
+      ids_fresh (gid P) (gless P ltb) ops -> grun P leb ltb ops = Some t ->
+      inorder t = fold_left (list_step (gid P) (gless P ltb)) ops []
+      /\ sorted (gless P ltb) (inorder t) /\ NoDup (ids (gid P) (inorder t)) /\ Forall (gwf P leb) (inorder t)
+      /\ rb t /\ (height t <= 2 * Nat.log2 (size t + 1))%nat
+      /\ gexact P leb t            (* every subtree: stored max is an upper bound of its upper bounds and attained *)
+      /\ forall lb ub, leb lb ub = true ->
+           Permutation (gfor_overlaps P leb lb ub t) (map (gid P) (filter (gspec P leb lb ub) (inorder t)))
+           /\ NoDup (gfor_overlaps P leb lb ub t).
+Proof. exact ghistory. Qed.
+
+(* the instance with signed endpoints *)
+Theorem C07_signed_endpoints : forall (ops : list (op (gelt Z))) (t : gtree Z),
+  ids_fresh (gid Z) (gless Z Z.ltb) ops -> grun Z Z.leb Z.ltb ops = Some t ->
+  sorted (gless Z Z.ltb) (inorder t) /\ NoDup (ids (gid Z) (inorder t))
+  /\ gexact Z Z.leb t
+  /\ forall lb ub : Z, (lb <= ub)%Z ->
+       Permutation (gfor_overlaps Z Z.leb lb ub t)
+                   (map (gid Z) (filter (fun e => Z.leb (glo Z e) ub && Z.leb lb (ghi Z e)) (inorder t)))
+       /\ NoDup (gfor_overlaps Z Z.leb lb ub t).
+Proof. exact history_Z. Qed.
+
+(* the extracted model that the correspondence check runs is the instance P = N of that generic text (by conversion) *)
+Theorem C07_extracted_model_is_N_instance :
+  iagg = gagg N N.ltb /\ iless = gless N N.ltb /\ iinsert = ginsert N N.leb N.ltb /\ iremove = gremove N N.ltb
+  /\ ovl = govl N N.leb /\ for_overlaps = gfor_overlaps N N.leb.
+Proof.
+  exact (conj N_instance_agg (conj N_instance_less (conj N_instance_insert (conj N_instance_remove
+           (conj N_instance_ovl N_instance_for_overlaps))))).
+Qed.
+
 Print Assumptions C07_annotation_is_subtree_max.
 Print Assumptions C07_annotation_meaning.
 Print Assumptions C07_annotation_exact.
@@ -130,6 +171,9 @@ Print Assumptions C07_overlaps_result.
 Print Assumptions C07_one_argument_form.
 Print Assumptions C07_history.
 Print Assumptions C07_assert_exact.
+Print Assumptions C07_any_ordered_endpoint_type.
+Print Assumptions C07_signed_endpoints.
+Print Assumptions C07_extracted_model_is_N_instance.
 
 (* ---- non-vacuity.  A history with nested ([1,6] ⊃ [3,4], [0,7] ⊃ [1,6]), touching ([3,4] | [4,5] | [5,7]), single-point
    ([4,4], [2,2]) and duplicate ([3,4] twice) intervals; behind it: LL and RR rotations on insertion, removal with
@@ -211,4 +255,22 @@ Example C07_demo_aggregate_path :
 Proof.
   split; [|vm_compute; reflexivity].
   exact (proj1 (C07_aggregate_path_restores 6 (2, 20, 6) demo_tree eq_refl (proj1 C07_demo_history))).
+Qed.
+
+(* negative and mixed-sign endpoints: the demo history shifted by -4 (endpoints -4 .. 5), as signed integers.  Every upper
+   bound of the left part is negative: a sentinel "maximum of an absent child" above them would make the annotation
+   inexact and the search would skip the right subtree (the search relies on gexact). *)
+Local Open Scope Z_scope.
+Definition demo_ops_Z : list (op (gelt Z)) :=
+  [OIns (-1, 0, 0%N); OIns (-3, 2, 1%N); OIns (-4, 3, 2%N); OIns (0, 0, 3%N); OIns (0, 1, 4%N); OIns (1, 3, 5%N);
+   OIns (-2, -2, 6%N); OIns (-1, 0, 7%N); ORem 2%N; ORem 5%N; OIns (2, 5, 2%N); ORem 1%N; ORem 3%N].
+Example C07_demo_signed :
+  exists t, grun Z Z.leb Z.ltb demo_ops_Z = Some t
+    /\ ids_fresh (gid Z) (gless Z Z.ltb) demo_ops_Z
+    /\ gfor_overlaps Z Z.leb 0 0 t = [7; 0; 4]%N /\ gfor_overlaps Z Z.leb (-2) (-2) t = [6]%N
+    /\ gfor_overlaps Z Z.leb (-4) (-3) t = [] /\ gfor_overlaps Z Z.leb 1 2 t = [4; 2]%N
+    /\ map (fun n => match n with T _ _ _ a _ => a | E => 0%Z end) [t] = [5%Z].
+Proof.
+  eexists. split; [vm_compute; reflexivity|]. split; [vm_compute; repeat split; intuition discriminate|].
+  repeat split; vm_compute; reflexivity.
 Qed.
